@@ -205,7 +205,7 @@ class PreHandshakeWorld(World):
         global _CODES
         if _CODES is None:
             from .. import sched as S
-            _CODES = S.code_objects(SV.DaemonObject.get_metadata, SV.Daemon.unregister, SV.Daemon.register)
+            _CODES = S.code_closure(SV.DaemonObject.get_metadata, SV.Daemon.unregister, SV.Daemon.register)
         return _CODES if plan.get("unregister") else ()
 
     # ------------------------------------------------------------------
